@@ -170,7 +170,7 @@ def rule_lvl(S):
                                 ini = unc(term(it, v['init']))
                 t = ini or t
             ok = t[0] == 'bin' and t[1] == '+' and {unc(t[2]), unc(t[3])} == {('var', lvl), ('const', 1)} and \
-                is_call(it.strip(call_recv(it, n), casts=True), cq=Y + 'interior_node::get_child_at')
+                is_call(_through_local(it, it.strip(call_recv(it, n), casts=True)), cq=Y + 'interior_node::get_child_at')
     bound = False
     for b, blk in it.blocks.items():
         if blk.term and blk.term.get('k') == 'ForStmt' and 'cond' in blk.term:
@@ -218,11 +218,118 @@ def rule_lvl(S):
          'the entry point does not start the walk at level 0', loc=ep.loc)
 
 
+def _through_local(f, n):
+    """A local that is defined once (its declaration) and never assigned is a name for its initialiser."""
+    hops = 0
+    while n is not None and n['k'] == 'DeclRefExpr' and n.get('dk') == 'var' and hops < 4:
+        vid = n.get('id')
+        inits = [v['init'] for m in f.all_nodes() if m['k'] == 'DeclStmt' for v in m.get('vars', [])
+                 if v['id'] == vid and 'init' in v]
+        assigned = any(m['k'] in ('BinaryOperator', 'CompoundAssignOperator') and m.get('op', '').endswith('=') and
+                       m.get('op') not in ('==', '!=', '<=', '>=') and
+                       (f.strip(f.ch(m)[0], casts=True) or {}).get('id') == vid for m in f.all_nodes())
+        if len(inits) != 1 or assigned:
+            break
+        n = f.strip(f.node(inits[0]), casts=True)
+        hops += 1
+    return n
+
+
+STACK_TY = 'std::vector<std::tuple<unsigned long, unsigned long, unsigned long>>'
+GROW = ('emplace_back', 'push_back', 'resize', 'insert', 'emplace', 'reserve', 'clear', 'pop_back', 'erase', 'assign',
+        'shrink_to_fit', 'operator=', 'swap')
+
+
+def rule_ref(S):
+    facts = S.facts()
+    S.rule('R-REF', 'the mem_usage family (every function that receives the per-level stack by non-const reference): a '
+                    'reference or structured binding taken into an element of the stack (at / operator[] / back / front) '
+                    'is not used after a call that can grow the stack - a growing member call on it, or a call that '
+                    'passes the stack on by non-const reference (the recursion into children / next layers): the '
+                    'element has moved, the update is lost and the write lands in freed memory')
+    n_f = 0
+    n_refs = 0
+    for f in sorted(facts.functions.values(), key=lambda x: x.fid):
+        if not f.blocks or not f.qname.startswith(Y):
+            continue
+        stacks = {p['id'] for p in f.params if STACK_TY in (p.get('type') or p.get('ty') or '') and
+                  '&' in (p.get('type') or p.get('ty') or '') and
+                  not (p.get('type') or p.get('ty') or '').startswith('const ')}
+        stacks |= {v['id'] for m in f.all_nodes() if m['k'] == 'DeclStmt' for v in m.get('vars', [])
+                   if (v.get('type') or '').replace('yakushima::memory_usage_stack', STACK_TY).startswith(STACK_TY) and
+                   '&' not in (v.get('type') or '')}
+        if not stacks:
+            continue
+        n_f += 1
+        sites = {}
+
+        def is_stack(nd):
+            x = f.strip(nd, casts=True)
+            return x is not None and x['k'] == 'DeclRefExpr' and x.get('id') in stacks
+
+        def elem_ref(init):
+            # the initialiser denotes an element of the stack
+            for x in f.walk(init):
+                if x['k'] in ('CXXMemberCallExpr', 'CXXOperatorCallExpr') and \
+                        x.get('cn') in ('at', 'operator[]', 'back', 'front'):
+                    r = call_recv(f, x) if x['k'] == 'CXXMemberCallExpr' else f.node(x['args'][0])
+                    if r is not None and is_stack(r):
+                        return True
+            return False
+
+        def step(ctx, nd, st):
+            k = nd['k']
+            if k == 'DeclStmt':
+                for v in nd.get('vars', []):
+                    ty = v.get('type') or ''
+                    if 'init' in v and '&' in ty and elem_ref(v['init']):
+                        ids = [b['id'] for b in v.get('bindings', [])] or [v['id']]
+                        st = frozenset(x for x in st if x[0] not in ids) | {(i, 'live') for i in ids}
+                return st
+            if k in CALL_KINDS:
+                grows = False
+                if k == 'CXXMemberCallExpr' and nd.get('cn') in GROW:
+                    r = call_recv(f, nd)
+                    grows = r is not None and is_stack(r)
+                else:
+                    args = call_args(f, nd)
+                    g = facts.get(nd.get('callee'))
+                    for i, a in enumerate(args):
+                        if is_stack(a):
+                            # passed on: by non-const reference unless the callee's parameter says otherwise
+                            pty = None
+                            if g is not None and i < len(g.params):
+                                pty = g.params[i].get('type') or g.params[i].get('ty') or ''
+                            if pty is None or ('&' in pty and not pty.startswith('const ')):
+                                grows = True
+                if grows:
+                    return frozenset((i, 'stale') for i, _ in st)
+                return st
+            if k == 'DeclRefExpr' and nd.get('dk') in ('binding', 'var'):
+                if (nd.get('id'), 'stale') in st:
+                    e = sites.setdefault(short_loc(nd), {'name': nd.get('name'), 'path': ctx.witness()})
+                return st
+            return st
+
+        Explorer(f, step).run(frozenset())
+        refs = sum(1 for m in f.all_nodes() if m['k'] == 'DeclStmt' for v in m.get('vars', [])
+                   if 'init' in v and '&' in (v.get('type') or '') and elem_ref(v['init']))
+        n_refs += refs
+        S.ob('R-REF', f.qname, 'element references stay valid', not sites,
+             '%d reference(s) into the stack, none used after a growth' % refs if not sites else
+             '`%s` refers to an element of the stack and is used at %s after a call that can grow (reallocate) the '
+             'stack' % (sorted(sites.items())[0][1]['name'], sorted(sites)[0]),
+             loc=sorted(sites)[0] if sites else f.loc, path=sorted(sites.items())[0][1]['path'] if sites else None)
+    S.require('R-REF', 'functions that hold or receive the per-level stack', n_f, 4)
+    S.require('R-REF', 'references into the stack', n_refs, 3)
+
+
 def run(S):
     S.undecided = ['equality with an independent walk of the tree', 'monotonicity in the number of occupied slots']
     S.assumptions = ['free capacity (key_slice_length - cnk, child_length - n_keys) is non-negative by construction of the nodes']
     rule_acc(S)
     rule_lvl(S)
+    rule_ref(S)
     from checks.C13 import rule_stg
     rule_stg(S, only=(Y + 'mem_usage',))
     from checks import C19
